@@ -155,21 +155,38 @@ fn random_msg(rng: &mut Rng, sjis: bool) -> String {
 
 /// `runs` histories of `len` calls; every fifth one is six times as long, never re-parses and mostly sets (counters of
 /// calls kept inside one archive object are driven past 2^8); `very_long` > 0 appends one history of that many calls
-/// of the same kind (past 2^16).
+/// of the same kind (past 2^16).  Every third history drives TWO archives (in different format / endian
+/// configurations) alive at the same time, calls interleaved at random: events carry "obj".
 fn record(out_path: &str, runs: usize, len: usize, very_long: usize) {
     let mut rng = Rng::new(seed_from_env());
     let mut out = NdWriter::create(out_path);
     let keys = ["k1", "k2", "k3", "k4", "k5", "k6", "k7", "k8"];
     let fmts = ["unicode-le", "unicode-be", "sjis-le", "sjis-be"];
     for run in 0..runs + (very_long > 0) as usize {
-        let fmt = fmts[run % 4];
-        let (f, e) = fmt_of(fmt);
-        let mut a = TextArchive::new(f, e);
-        out.put(&json!({"op": "reset", "fmt": fmt, "k": "", "m": [], "t": "", "res": unit(), "post": project(&a)}));
-        let nkeys = rng.range(2, keys.len());
         let long = run % 5 == 4 || run == runs;
+        let twin = run % 3 == 1 && !long;
+        let nobj = if twin { 2 } else { 1 };
+        let ofmt: Vec<&str> = (0..nobj).map(|o| fmts[(run + 3 * o) % 4]).collect();
+        let fresh = |o: usize| {
+            let (f, e) = fmt_of(ofmt[o]);
+            TextArchive::new(f, e)
+        };
+        let reset = |o: usize, a: &TextArchive| {
+            let mut r = json!({"op": "reset", "fmt": ofmt[o], "k": "", "m": [], "t": "", "res": unit(), "post": project(a)});
+            if twin {
+                r["obj"] = json!(o);
+            }
+            r
+        };
+        let mut objs: Vec<TextArchive> = (0..nobj).map(|o| fresh(o)).collect();
+        for o in 0..nobj {
+            out.put(&reset(o, &objs[o]));
+        }
+        let nkeys = rng.range(2, keys.len());
         let n_calls = if run == runs { very_long } else if long { 6 * len } else { len };
         for _ in 0..n_calls {
+            let o = if twin { rng.below(2) } else { 0 };
+            let fmt = ofmt[o];
             let k = keys[rng.below(nkeys)];
             let r = if !long { rng.below(100) } else if rng.chance(2, 3) { rng.below(40) } else { rng.below(92) };
             let ev = if r < 40 {
@@ -187,7 +204,7 @@ fn record(out_path: &str, runs: usize, len: usize, very_long: usize) {
             };
             // store-back of a looked-up message (the C07 no-op law) now and then
             let ev = if r >= 60 && r < 64 {
-                match a.get_message(k) {
+                match objs[o].get_message(k) {
                     Some(m) => json!({"op": "set", "k": k, "m": str_to_codes(&m), "t": ""}),
                     None => ev,
                 }
@@ -195,19 +212,23 @@ fn record(out_path: &str, runs: usize, len: usize, very_long: usize) {
                 ev
             };
             let mut rec = ev.clone();
+            if twin {
+                rec["obj"] = json!(o);
+            }
+            let a = std::mem::replace(&mut objs[o], fresh(o));
             match catch(|| apply(a, &ev, fmt)) {
                 Ok((res, b)) => {
-                    a = b;
                     rec["res"] = res;
-                    rec["post"] = project(&a);
+                    rec["post"] = project(&b);
+                    objs[o] = b;
                     out.put(&rec);
                 }
                 Err(p) => {
                     rec["res"] = json!({"panic": p});
                     rec["post"] = json!({"title": "", "entries": [], "dirty": false});
                     out.put(&rec);
-                    a = TextArchive::new(f, e);
-                    out.put(&json!({"op": "reset", "fmt": fmt, "k": "", "m": [], "t": "", "res": unit(), "post": project(&a)}));
+                    objs[o] = fresh(o);
+                    out.put(&reset(o, &objs[o]));
                 }
             }
         }
